@@ -1,4 +1,5 @@
 """C05 - ASCII type converts line endings exactly, independent of chunking."""
+from props.client_props import gen_c05_client
 from rng import hx, hexlist, natlist
 import itertools
 
@@ -52,7 +53,8 @@ def gen(ctx):
 
 PROP = {
     "id": "C05",
-    "stages": [{"name": "pure", "target": "h_pure", "gen": gen}],
+    "stages": [{"name": "pure", "target": "h_pure", "gen": gen},
+               {"name": "client", "target": "h_client", "gen": gen_c05_client, "shard": 12}],
     "trivial_tags": ["plain", "nocr"],
     "rule": "real ascii_istream (behind a chopping source, read with chosen caller sizes until it returns 0) and ascii_ostream (chosen write "
             "partition, then flush, into a recording sink) compared with the Lean model under the same chunking and with the whole-string "
